@@ -5,10 +5,13 @@
 From Coq Require Import ZArith List Bool Permutation Reals QArith Qabs Sorting.Sorted Floats.
 From Flocq Require Import Core.
 From Flocq Require Raux.
-From SID Require Import Base F64 SetOps AShiftR Comb Vec Quat VecF VecExact OrdMax PointLaws.
+From SID Require Import Base F64 SetOps SetMore AShiftR Comb Vec Quat VecF VecExact OrdMax PointLaws FloatId.
 Import ListNotations.
 
-(* ================= set helpers: for every element type with decidable equality and EVERY map iteration order ================= *)
+(* ================= set helpers: for every element type whose == is Leibniz equality (hypothesis eqb_spec) and EVERY map iteration order.
+   TYPE RESTRICTION: Go's `comparable` is wider. The laws below hold for integers, strings, booleans, pointers, and structs/arrays of
+   these; they are FALSE at float64 when NaN occurs (Unique([NaN,NaN]) has two elements, Include([NaN],NaN) = false) and interface
+   elements can make == panic. NaN-free float64 lists are run (+0 and -0 are one key) and judged up to ==. ================= *)
 Section SetHelpers.
   Context {A : Type} (eqb : A -> A -> bool) (eqb_spec : forall a b, reflect (a = b) (eqb a b)).
   Variable ord : list A -> list A.                       (* the order in which Go ranges over a map *)
@@ -54,6 +57,8 @@ Section SetHelpers.
   Proof. exact (is_set_of_spec eqb eqb_spec). Qed.
   Theorem C20_set_checker_is_model_up_to_order : forall l o, is_set_of eqb l o = true <-> Permutation o (nodupb eqb l).
   Proof. exact (is_set_of_unique eqb eqb_spec). Qed.
+  Theorem C20_include_checker_sound : forall l t o, check_include eqb l t o = true <-> (o = true <-> In t l).
+  Proof. exact (check_include_spec eqb eqb_spec). Qed.
   Theorem C20_difference_checker_sound : forall l1 l2 o,
     follows eqb (fun x => negb (memb eqb x l2)) l1 o = true <-> o = difference eqb l1 l2.
   Proof. exact (follows_difference eqb eqb_spec). Qed.
@@ -75,6 +80,7 @@ Print Assumptions C20_intersect_keeps_order_and_multiplicity.
 Print Assumptions C20_difference_and_intersection_partition_the_list.
 Print Assumptions C20_set_checker_sound.
 Print Assumptions C20_set_checker_is_model_up_to_order.
+Print Assumptions C20_include_checker_sound.
 Print Assumptions C20_difference_checker_sound.
 Print Assumptions C20_intersect_checker_sound.
 
@@ -150,74 +156,76 @@ Theorem C20_combinations_checker_sound : forall n k v, 0 <= n -> 0 <= k ->
 Proof. exact visits_unique. Qed.
 Print Assumptions C20_combinations_checker_sound.
 
-(* ================= vectors, lines, matrices over the reals ================= *)
+(* ================= vectors, lines, matrices — OVER THE REALS (names end in _over_R); the binary64 statements follow further down ================= *)
 Open Scope R_scope.
-Theorem C20_line_parameter_0_and_1_give_the_end_points : forall p q,
+Theorem C20_line_parameter_0_and_1_give_the_end_points_over_R : forall p q,
   line_to_point (line_from_points p q) 0 = p /\ line_to_point (line_from_points p q) 1 = q /\
   line_start (line_from_points p q) = p /\ line_end (line_from_points p q) = q.
 Proof. exact line_end_points. Qed.
-Print Assumptions C20_line_parameter_0_and_1_give_the_end_points.
-Theorem C20_line_is_the_affine_combination : forall p q t,
+Print Assumptions C20_line_parameter_0_and_1_give_the_end_points_over_R.
+Theorem C20_line_is_the_affine_combination_over_R : forall p q t,
   line_to_point (line_from_points p q) t = vadd (vscale (1 - t) p) (vscale t q).
 Proof. exact line_affine. Qed.
-Print Assumptions C20_line_is_the_affine_combination.
-Theorem C20_matrix_product_is_associative : forall a b c, mmul (mmul a b) c = mmul a (mmul b c).
+Print Assumptions C20_line_is_the_affine_combination_over_R.
+Theorem C20_matrix_product_is_associative_over_R : forall a b c, mmul (mmul a b) c = mmul a (mmul b c).
 Proof. exact mmul_assoc. Qed.
-Print Assumptions C20_matrix_product_is_associative.
-Theorem C20_matrix_product_agrees_with_application : forall a b v, mulvec (mmul a b) v = mulvec a (mulvec b v).
+Print Assumptions C20_matrix_product_is_associative_over_R.
+Theorem C20_matrix_product_agrees_with_application_over_R : forall a b v, mulvec (mmul a b) v = mulvec a (mulvec b v).
 Proof. exact mulvec_mmul. Qed.
-Print Assumptions C20_matrix_product_agrees_with_application.
-Theorem C20_unit_matrix_is_neutral : forall a v, mmul munit a = a /\ mmul a munit = a /\ mulvec munit v = v.
+Print Assumptions C20_matrix_product_agrees_with_application_over_R.
+Theorem C20_unit_matrix_is_neutral_over_R : forall a v, mmul munit a = a /\ mmul a munit = a /\ mulvec munit v = v.
 Proof. exact munit_neutral. Qed.
-Print Assumptions C20_unit_matrix_is_neutral.
-Theorem C20_cross_product_is_perpendicular : forall a b, vdot a (vcross a b) = 0 /\ vdot b (vcross a b) = 0.
+Print Assumptions C20_unit_matrix_is_neutral_over_R.
+Theorem C20_cross_product_is_perpendicular_over_R : forall a b, vdot a (vcross a b) = 0 /\ vdot b (vcross a b) = 0.
 Proof. exact vcross_perp. Qed.
-Print Assumptions C20_cross_product_is_perpendicular.
-Theorem C20_lagrange_identity : forall a b, vdot (vcross a b) (vcross a b) = vdot a a * vdot b b - vdot a b * vdot a b.
+Print Assumptions C20_cross_product_is_perpendicular_over_R.
+Theorem C20_lagrange_identity_over_R : forall a b, vdot (vcross a b) (vcross a b) = vdot a a * vdot b b - vdot a b * vdot a b.
 Proof. exact lagrange. Qed.
-Print Assumptions C20_lagrange_identity.
-Theorem C20_norm_squared_is_dot : forall a, vnorm a * vnorm a = vdot a a /\ 0 <= vnorm a.
+Print Assumptions C20_lagrange_identity_over_R.
+Theorem C20_norm_squared_is_dot_over_R : forall a, vnorm a * vnorm a = vdot a a /\ 0 <= vnorm a.
 Proof. exact vnorm_sq_nonneg. Qed.
-Print Assumptions C20_norm_squared_is_dot.
-Theorem C20_unit_has_norm_one : forall a, nonzero a -> vnorm (vunit a) = 1.
+Print Assumptions C20_norm_squared_is_dot_over_R.
+Theorem C20_unit_has_norm_one_over_R : forall a, nonzero a -> vnorm (vunit a) = 1.
 Proof. exact vunit_vnorm. Qed.
-Print Assumptions C20_unit_has_norm_one.
-Theorem C20_translate_by_difference_reaches_the_point : forall p q, translate p (vec_from_points p q) = q.
+Print Assumptions C20_unit_has_norm_one_over_R.
+Theorem C20_translate_by_difference_reaches_the_point_over_R : forall p q, translate p (vec_from_points p q) = q.
 Proof. exact translate_from_points. Qed.
-Print Assumptions C20_translate_by_difference_reaches_the_point.
+Print Assumptions C20_translate_by_difference_reaches_the_point_over_R.
 
-(* ================= rotation between two non-zero vectors ================= *)
+(* ================= rotation between two non-zero vectors — OVER THE REALS ONLY: these theorems are about the real-number model of quat.go;
+   the binary64 code is tied to them only by the run-time checks, and its unit norm is off by up to ~6e-6 for 1e-10 <= 1+cos < 2^-19
+   (finding quat_norm_cancellation) ================= *)
 (* generic case and exactly opposite vectors: a unit quaternion carrying the first direction onto the second *)
-Theorem C20_rotation_carries_first_direction_onto_second_partial : forall a b, nonzero a -> nonzero b ->
+Theorem C20_rotation_carries_first_direction_onto_second_over_R_partial : forall a b, nonzero a -> nonzero b ->
   minima <= 1 + vcos (vunit a) (vunit b) \/ opposite a b ->
   qnorm2 (rotate_between a b) = 1 /\ rot (rotate_between a b) (vunit a) = vunit b.
 Proof. exact rotate_between_partial. Qed.
-Print Assumptions C20_rotation_carries_first_direction_onto_second_partial.
+Print Assumptions C20_rotation_carries_first_direction_onto_second_over_R_partial.
 (* "also when they are opposite": with either fallback axis of the code (unit(a) x e_z, or a x e_x when a is within 1e-10 of the z axis) *)
-Theorem C20_rotation_between_opposite_vectors : forall a b, nonzero a -> opposite a b ->
+Theorem C20_rotation_between_opposite_vectors_over_R : forall a b, nonzero a -> opposite a b ->
   qnorm2 (rotate_between a b) = 1 /\ rot (rotate_between a b) (vunit a) = vunit b.
 Proof. exact rotate_between_opposite. Qed.
-Print Assumptions C20_rotation_between_opposite_vectors.
-Theorem C20_fallback_axis_is_never_zero_and_perpendicular : forall a, nonzero a ->
+Print Assumptions C20_rotation_between_opposite_vectors_over_R.
+Theorem C20_fallback_axis_is_never_zero_and_perpendicular_over_R : forall a, nonzero a ->
   let ax1 := vcross (vunit a) (V 0 0 1) in
   let ax := if Rlt_dec (vnorm ax1) minima then vcross a (V 1 0 0) else ax1 in
   nonzero ax /\ vdot ax (vunit a) = 0.
 Proof. exact fallback_axis. Qed.
-Print Assumptions C20_fallback_axis_is_never_zero_and_perpendicular.
+Print Assumptions C20_fallback_axis_is_never_zero_and_perpendicular_over_R.
 (* the quaternion is a unit for all non-zero arguments *)
-Theorem C20_rotation_is_a_unit_quaternion : forall a b, nonzero a -> nonzero b -> qnorm2 (rotate_between a b) = 1.
+Theorem C20_rotation_is_a_unit_quaternion_over_R : forall a b, nonzero a -> nonzero b -> qnorm2 (rotate_between a b) = 1.
 Proof. exact rotate_between_unit. Qed.
-Print Assumptions C20_rotation_is_a_unit_quaternion.
+Print Assumptions C20_rotation_is_a_unit_quaternion_over_R.
 (* whenever 1 + cos < Minima the code performs the half turn a |-> -a, whatever b is ... *)
-Theorem C20_rotation_fallback_is_a_half_turn : forall a b, nonzero a -> nonzero b -> 1 + vcos (vunit a) (vunit b) < minima ->
+Theorem C20_rotation_fallback_is_a_half_turn_over_R : forall a b, nonzero a -> nonzero b -> 1 + vcos (vunit a) (vunit b) < minima ->
   rot (rotate_between a b) (vunit a) = vneg (vunit a).
 Proof. exact rotate_between_fallback_half_turn. Qed.
-Print Assumptions C20_rotation_fallback_is_a_half_turn.
+Print Assumptions C20_rotation_fallback_is_a_half_turn_over_R.
 (* ... so the law as stated fails for nearly-but-not-exactly opposite vectors (finding class quat_near_opposite) *)
-Theorem C20_rotation_near_opposite_refuted :
+Theorem C20_rotation_near_opposite_refuted_over_R :
   exists a b, nonzero a /\ nonzero b /\ rot (rotate_between a b) (vunit a) <> vunit b.
 Proof. exact rotate_between_near_opposite_refuted. Qed.
-Print Assumptions C20_rotation_near_opposite_refuted.
+Print Assumptions C20_rotation_near_opposite_refuted_over_R.
 
 (* ================= the run-time law checkers on float outputs decide statements of exact (rational) arithmetic ================= *)
 Open Scope Q_scope.
@@ -275,26 +283,26 @@ Print Assumptions C20_float_line_point_is_exact_on_integers.
    DegreeToRadian / RadianToDegree (models and proofs: theories/PointLaws.v, OrdMax.v) ================= *)
 Open Scope R_scope.
 (* L1Norm = |x|+|y|+|z| is a norm, and dominates the Euclidean norm *)
-Theorem C20_l1norm_is_a_norm : forall a b f,
+Theorem C20_l1norm_is_a_norm_over_R : forall a b f,
   0 <= vl1norm a /\ vl1norm (vadd a b) <= vl1norm a + vl1norm b /\ vl1norm (vscale f a) = Rabs f * vl1norm a /\
   (vl1norm a = 0 <-> a = vzero) /\ vnorm a <= vl1norm a.
 Proof. exact vl1norm_laws. Qed.
-Print Assumptions C20_l1norm_is_a_norm.
+Print Assumptions C20_l1norm_is_a_norm_over_R.
 Theorem C20_float_l1norm_is_exact_on_integers : forall a ma, ibv K a ma ->
   is_int (fl1norm a) (Z.abs (zx ma) + Z.abs (zy ma) + Z.abs (zz ma)).
 Proof. exact fl1norm_exact. Qed.
 Print Assumptions C20_float_l1norm_is_exact_on_integers.
 (* AlmostEqual over R: reflexive, symmetric; for tol >= 0 it is |x - y| <= tol, for tol < 0 it is equality *)
-Theorem C20_almost_equal_laws : forall x y tol,
+Theorem C20_almost_equal_laws_over_R : forall x y tol,
   almost_equalR x x tol /\ (almost_equalR x y tol -> almost_equalR y x tol) /\
   (0 <= tol -> (almost_equalR x y tol <-> Rabs (x - y) <= tol)) /\ (tol < 0 -> (almost_equalR x y tol <-> x = y)).
 Proof. exact almost_equalR_laws. Qed.
-Print Assumptions C20_almost_equal_laws.
-Theorem C20_is_close_laws : forall p q eps,
+Print Assumptions C20_almost_equal_laws_over_R.
+Theorem C20_is_close_laws_over_R : forall p q eps,
   is_closeR p p eps /\ (is_closeR p q eps -> is_closeR q p eps) /\
   (0 <= eps -> (is_closeR p q eps <-> Rabs (vx p - vx q) <= eps /\ Rabs (vy p - vy q) <= eps /\ Rabs (vz p - vz q) <= eps)).
 Proof. exact is_closeR_laws. Qed.
-Print Assumptions C20_is_close_laws.
+Print Assumptions C20_is_close_laws_over_R.
 (* AlmostEqual on binary64 (`fin` = finite, `rv` = real value, rounding to nearest even): what the code computes, exactly *)
 Theorem C20_float_almost_equal_value : forall x y tol, fin x -> fin y -> fin tol ->
   Rabs (round radix2 (SpecFloat.fexp FloatOps.prec FloatOps.emax) ZnearestE (rv x - rv y)) < bpow radix2 FloatOps.emax ->
@@ -337,22 +345,22 @@ Theorem C20_unique_append_keeps_points_separated : forall (A : Type) (close : A 
 Proof. exact @uappend_separated. Qed.
 Print Assumptions C20_unique_append_keeps_points_separated.
 (* MaxPoint / MinPoint over R: a member with the extreme dot product; empty list rejected; idempotent; coordinate bounds *)
-Theorem C20_max_min_point_bound_all_points : forall l v m,
+Theorem C20_max_min_point_bound_all_points_over_R : forall l v m,
   (max_pointR l v = Ok m -> In m l /\ forall q, In q l -> vdot q v <= vdot m v) /\
   (min_pointR l v = Ok m -> In m l /\ forall q, In q l -> vdot m v <= vdot q v) /\
   (max_pointR l v = Err <-> l = []) /\ (min_pointR l v = Err <-> l = []).
 Proof. exact max_min_pointR_laws. Qed.
-Print Assumptions C20_max_min_point_bound_all_points.
-Theorem C20_max_min_point_are_idempotent : forall l v m,
+Print Assumptions C20_max_min_point_bound_all_points_over_R.
+Theorem C20_max_min_point_are_idempotent_over_R : forall l v m,
   (max_pointR l v = Ok m -> max_pointR (m :: l) v = Ok m) /\ (min_pointR l v = Ok m -> min_pointR (m :: l) v = Ok m) /\
   max_pointR [m] v = Ok m /\ min_pointR [m] v = Ok m.
 Proof. exact max_min_pointR_idempotent. Qed.
-Print Assumptions C20_max_min_point_are_idempotent.
-Theorem C20_max_min_point_along_an_axis_bound_the_coordinate : forall l m,
+Print Assumptions C20_max_min_point_are_idempotent_over_R.
+Theorem C20_max_min_point_along_an_axis_bound_the_coordinate_over_R : forall l m,
   (max_pointR l (V 1 0 0) = Ok m -> In m l /\ forall q, In q l -> vx q <= vx m) /\
   (min_pointR l (V 1 0 0) = Ok m -> In m l /\ forall q, In q l -> vx m <= vx q).
 Proof. exact max_min_pointR_axis. Qed.
-Print Assumptions C20_max_min_point_along_an_axis_bound_the_coordinate.
+Print Assumptions C20_max_min_point_along_an_axis_bound_the_coordinate_over_R.
 (* the binary64 code itself (VecF.fmax_point, compared bit for bit): with finite dot products the result is a member whose computed
    dot product bounds every computed dot product *)
 Theorem C20_float_max_min_point_bound_all_points : forall gt l v m, Forall (fun p => fin (fdot p v)) l -> fmax_point gt l v = Ok m ->
@@ -369,9 +377,9 @@ Proof. exact maxF_minF_laws. Qed.
 Print Assumptions C20_float_max_min_bound_all_elements.
 (* DegreeToRadian / RadianToDegree: inverse over R; the two float64 constants are pi/180 and 180/pi to half an ulp and inverse to 2^-52;
    the code computes one correctly rounded product with them *)
-Theorem C20_degree_radian_are_inverse : forall x, rad2degR (deg2radR x) = x /\ deg2radR (rad2degR x) = x /\ deg2radR 180 = PI.
+Theorem C20_degree_radian_are_inverse_over_R : forall x, rad2degR (deg2radR x) = x /\ deg2radR (rad2degR x) = x /\ deg2radR 180 = PI.
 Proof. exact deg_rad_inverseR. Qed.
-Print Assumptions C20_degree_radian_are_inverse.
+Print Assumptions C20_degree_radian_are_inverse_over_R.
 Theorem C20_degree_radian_constants :
   rv c_deg2rad = c_d2r_R /\ rv c_rad2deg = c_r2d_R /\
   Rabs (c_d2r_R - PI / 180) <= / IZR (2 ^ 60) /\ Rabs (c_r2d_R - 180 / PI) <= / IZR (2 ^ 48) /\ Rabs (c_d2r_R * c_r2d_R - 1) <= / IZR (2 ^ 52).
@@ -393,6 +401,43 @@ Open Scope Z_scope.
 Theorem C20_combinations_with_k_above_n_never_returns : forall fuel j, 1 <= j -> run fuel 1 2 [0; j] = None.
 Proof. exact combinations_k_gt_n_never_returns. Qed.
 Print Assumptions C20_combinations_with_k_above_n_never_returns.
+
+(* ================= binary64, ALL finite floats: identities that need no integrality, and the error bound of the end point ================= *)
+Open Scope R_scope.
+(* `val x r`: x is finite with real value r; `veqR`/`meqR`: componentwise, e.g. a -0 may come back as +0 *)
+Theorem C20_float_line_parameter_0_gives_the_start_point : forall p d, finv p -> finv d -> veqR (fline_to_point p d 0) p.
+Proof. exact fline_to_point_0. Qed.
+Print Assumptions C20_float_line_parameter_0_gives_the_start_point.
+Theorem C20_float_unit_matrix_is_left_neutral : forall a, finm a -> meqR (fmmul fmunit a) a.
+Proof. exact fmmul_unit_l. Qed.
+Print Assumptions C20_float_unit_matrix_is_left_neutral.
+Theorem C20_float_unit_matrix_is_right_neutral : forall a, finm a -> meqR (fmmul a fmunit) a.
+Proof. exact fmmul_unit_r. Qed.
+Print Assumptions C20_float_unit_matrix_is_right_neutral.
+Theorem C20_float_unit_matrix_fixes_vectors : forall v, finv v -> veqR (fmulvec fmunit v) v.
+Proof. exact fmulvec_unit. Qed.
+Print Assumptions C20_float_unit_matrix_fixes_vectors.
+(* parameter 1 reaches the end point up to two roundings: per coordinate |ToPoint(1) - q| <= 2^-51 (|p| + |q|), provided nothing overflows.
+   The bound is relative to |p|+|q|, not to |q|. The run-time band for ToPoint(1)/End is 2^-48 (|p|+|q|). *)
+Theorem C20_float_line_parameter_1_error_bound : forall p q, finv p -> finv q ->
+  (Rabs (round radix2 (SpecFloat.fexp FloatOps.prec FloatOps.emax) ZnearestE (rv (fx q) - rv (fx p))) < bpow radix2 FloatOps.emax /\
+   Rabs (round radix2 (SpecFloat.fexp FloatOps.prec FloatOps.emax) ZnearestE (rv (fx p) + round radix2 (SpecFloat.fexp FloatOps.prec FloatOps.emax) ZnearestE (rv (fx q) - rv (fx p)))) < bpow radix2 FloatOps.emax) ->
+  (Rabs (round radix2 (SpecFloat.fexp FloatOps.prec FloatOps.emax) ZnearestE (rv (fy q) - rv (fy p))) < bpow radix2 FloatOps.emax /\
+   Rabs (round radix2 (SpecFloat.fexp FloatOps.prec FloatOps.emax) ZnearestE (rv (fy p) + round radix2 (SpecFloat.fexp FloatOps.prec FloatOps.emax) ZnearestE (rv (fy q) - rv (fy p)))) < bpow radix2 FloatOps.emax) ->
+  (Rabs (round radix2 (SpecFloat.fexp FloatOps.prec FloatOps.emax) ZnearestE (rv (fz q) - rv (fz p))) < bpow radix2 FloatOps.emax /\
+   Rabs (round radix2 (SpecFloat.fexp FloatOps.prec FloatOps.emax) ZnearestE (rv (fz p) + round radix2 (SpecFloat.fexp FloatOps.prec FloatOps.emax) ZnearestE (rv (fz q) - rv (fz p)))) < bpow radix2 FloatOps.emax) ->
+  let r := fline_to_point p (fvec_from_points p q) 1 in
+  finv r /\
+  Rabs (rv (fx r) - rv (fx q)) <= bpow radix2 (-51) * (Rabs (rv (fx p)) + Rabs (rv (fx q))) /\
+  Rabs (rv (fy r) - rv (fy q)) <= bpow radix2 (-51) * (Rabs (rv (fy p)) + Rabs (rv (fy q))) /\
+  Rabs (rv (fz r) - rv (fz q)) <= bpow radix2 (-51) * (Rabs (rv (fz p)) + Rabs (rv (fz q))).
+Proof. exact fline_to_point_1. Qed.
+Print Assumptions C20_float_line_parameter_1_error_bound.
+(* the value of pi against which the run-time judge of DegreeToRadian / RadianToDegree compares (independent of the code's constants) *)
+Theorem C20_runtime_pi_is_pi : Rabs (IZR 16312081666030376401667486162748272 / IZR (2 ^ 112) - PI) <= / IZR (2 ^ 110).
+Proof. exact pi112_close. Qed.
+Print Assumptions C20_runtime_pi_is_pi.
+Close Scope R_scope.
 
 (* ================= non-vacuity ================= *)
 Close Scope Q_scope.
@@ -421,3 +466,7 @@ From SID Require GenTac.
 Theorem C20_generated_arithmetic_shift_is_the_model : forall i s, Generated.CalculateArithmeticShift i s = Base.ashift i s.
 Proof. exact GenTac.gen_CalculateArithmeticShift_eq. Qed.
 Print Assumptions C20_generated_arithmetic_shift_is_the_model.
+Example C20_nonvacuous_generic_rotation : nonzero (V 1 0 0) /\ nonzero (V 0 1 0) /\ (minima <= 1 + vcos (vunit (V 1 0 0)) (vunit (V 0 1 0)))%R.
+Proof. exact generic_case_inhabited. Qed.
+Example C20_nonvacuous_integer_floats : ib K 3%float 3 /\ ib K (-7)%float (-7).
+Proof. exact three_is_int. Qed.
